@@ -26,6 +26,7 @@
 import AITB.Model.Num
 import AITB.Model.MDP
 import AITB.Model.Prune
+import AITB.Model.Interp
 import AITB.Gen.Constants
 import AITB.Gen.C03Src
 
@@ -261,5 +262,83 @@ def bestConservative (m : POMDP) (b : Vec) (Γ : Array Vec) : Nat × Rat × Vec 
   let αs := (Array.range m.A).map (conservativeAlpha m b Γ)
   let id := argmaxTo (m.A - 1) (fun a => dotV m.S b (αs.getD a #[]))
   (id, dotV m.S b (αs.getD id #[]), αs.getD id #[])
+
+
+/-! ## the reference values the driver evaluates (tied to `upperRef` / `lowerRef` in Props/C03Tie) -/
+
+/-- depth of the exact look-ahead the instance allows: (A·O)^k ≤ budget -/
+def depthFor (m : POMDP) (budget : Nat) : Nat :=
+  let br := m.A * m.O
+  if br ≤ 1 then 8 else
+  let rec go (fuel k acc : Nat) : Nat := match fuel with
+    | 0 => k
+    | f+1 => if acc * br ≤ budget then go f (k+1) (acc * br) else k
+  go 8 0 1
+
+structure Refs where
+  m : POMDP
+  /-- MDP super-solution after `j` backups of `Rmax/(1-γ)` -/
+  vU : Vec
+  /-- blind sub-solutions after `j` steps from `minR_a/(1-γ)` -/
+  βL : Array Vec
+  k : Nat
+
+def mkRefs (m : POMDP) (j budget : Nat) : Refs :=
+  let cU := maxRall m / (1 - m.γ)
+  { m := m, vU := iterV (mdpStepV m) j (mkVec m.S (fun _ => cU)),
+    βL := (Array.range m.A).map (fun a => iterV (blindStepV m a) j (mkVec m.S (fun _ => minRa m a / (1 - m.γ)))),
+    k := depthFor m budget }
+
+/-- infinite-horizon upper reference at `x` -/
+def Refs.U (r : Refs) (x : Vec) : Rat := iterHV r.m (linVV r.m.S r.vU) r.k x
+/-- infinite-horizon lower reference at `x` -/
+def Refs.L (r : Refs) (x : Vec) : Rat := iterHV r.m (maxLinVV r.m.S r.βL) r.k x
+
+
+/-! ## per-instance certificates (Props/C03Trace): finitely many componentwise inequalities that decide soundness at every belief -/
+
+/-- `β ≤ Blind_a β + δ` on the `S` states -/
+def blindCertOK (m : POMDP) (a : Nat) (β : Vec) (δ : Rat) : Bool :=
+  decide (a < m.A) && AITB.MDP.allLt m.S (fun s => decide (β.get s ≤ blindStep m a β.get s + δ))
+
+/-- `α ≤ backupVec a (cands[idx o])_o + δ` on the `S` states, all indices in range -/
+def backupCertOK (m : POMDP) (a : Nat) (α : Vec) (cands : Array Vec) (idx : List Nat) (δ : Rat) : Bool :=
+  decide (a < m.A) && idx.length == m.O && idx.all (fun i => decide (i < cands.size)) &&
+  AITB.MDP.allLt m.S (fun s => decide (α.get s ≤ backupVec m a (fun o => (cands.getD (idx.getD o 0) #[]).get) s + δ))
+
+/-- certify `(action, vector, witness indices)` triples in order; each may lean on the start set and on the ones certified before it -/
+def certChain (m : POMDP) (δ : Rat) : Array Vec → List (Nat × Vec × List Nat) → Option (Array Vec)
+  | cands, [] => some cands
+  | cands, (a, α, idx) :: rest => if backupCertOK m a α cands idx δ then certChain m δ (cands.push α) rest else none
+
+
+/-! ## bestPromisingAction<false> as written: per-action value through `sawtoothInterpolation` (the C12 model, reading = the source now) -/
+
+/-- `std::get<0>(sawtoothInterpolation(x, ubQ, ubV))`; `none` = the C12 model makes no prediction -/
+def sawVal (m : POMDP) (Q : Mat) (pts : Array (Vec × Rat)) (x : Vec) : Option Rat :=
+  (AITB.Interp.sawtooth AITB.Interp.srcVariant x.toList (Q.toList.map (·.toList)) m.A (pts.toList.map (·.1.toList)) (pts.toList.map (·.2))).map (·.value)
+
+/-- the `sum` of the observation loop after the first `n` observations (`continue` on `checkEqualSmall(prob, 0)`) -/
+def sumSaw (m : POMDP) (Q : Mat) (pts : Array (Vec × Rat)) (b : Vec) (a : Nat) : Nat → Option Rat
+  | 0 => some 0
+  | n+1 => match sumSaw m Q pts b a n with
+    | none => none
+    | some s =>
+      let nb := bstepV m b a n
+      if checkEqualSmall (mass m.S nb.get) 0 then some s else (sawVal m Q pts nb).map (fun t => s + t)
+
+/-- `qvals[a]` -/
+def promisingActSaw (m : POMDP) (Q : Mat) (pts : Array (Vec × Rat)) (b : Vec) (a : Nat) : Option Rat :=
+  (sumSaw m Q pts b a m.O).map (fun s => rew m b.get a + m.γ * s)
+
+/-- running maximum of `qvals[0..n]` (`none` as soon as one entry has no prediction) -/
+def maxSaw (m : POMDP) (Q : Mat) (pts : Array (Vec × Rat)) (b : Vec) : Nat → Option Rat
+  | 0 => promisingActSaw m Q pts b 0
+  | n+1 => match maxSaw m Q pts b n, promisingActSaw m Q pts b (n+1) with
+    | some x, some y => some (if x < y then y else x)
+    | _, _ => none
+
+/-- `qvals.maxCoeff()` -/
+def bestPromisingSaw (m : POMDP) (Q : Mat) (pts : Array (Vec × Rat)) (b : Vec) : Option Rat := maxSaw m Q pts b (m.A - 1)
 
 end AITB.POMDP3
